@@ -152,6 +152,18 @@ def dictInsertAll : List Val → List Val → List Val → List Val → List Val
     dictInsertAll r.1 r.2 ks vs
   | ks0, vs0, _, _ => (ks0, vs0)
 
+/-- `v.from_pydict(d)` where `v` is not an instance that takes it: AttributeError (None, a scalar, a
+    container); a Message given something that is not a dict: `for key in <d>` — not modelled -/
+def notMsgErr : Val → PyErr
+  | .msg _ _ _ _ _ => .notImpl
+  | _ => .attr
+
+/-- `for x in <p>` on an object that is not a list / dict: TypeError; a str iterates over its
+    characters (not modelled) -/
+def iterErr : PVal → PyErr
+  | .str _ => .notImpl
+  | _ => .type
+
 /-- `if v is not None: setattr(self, field_name, v)` -/
 def setAttrNN (S : Schema) (fs : List FieldD) (st : MState) (i : Nat) : Val → MState
   | .none => st
@@ -184,9 +196,9 @@ def fromPyField (S : Schema) (fs : List FieldD) (st : MState) (i : Nat) (f : Fie
          | _ => if items.isEmpty then .ok (setAttr S fs st1 i (.list xs)) else .error .type)
       | .ts _ => (unRaw (.arr items)).bind fun w => .ok (setAttrNN S fs st1 i w)
       | .dur _ => (unRaw (.arr items)).bind fun w => .ok (setAttrNN S fs st1 i w)
-      | _ =>
+      | v =>
         if f.wraps.isSome then (unRaw (.arr items)).bind fun w => .ok (setAttrNN S fs st1 i w)
-        else .error .attr                                  -- `None.from_pydict`; a Message: `for key in <list>` not modelled
+        else .error (notMsgErr v)                          -- `None.from_pydict`; a Message: `for key in <list>` not modelled
     else if f.ty == .map && f.mapV == .message then
       -- `for k in <list>: … value[key][k]`: a list subscripted by one of its items (TypeError), unless it is empty
       (getAttr S fs st i).bind fun (v, st1) =>
@@ -223,14 +235,14 @@ def fromPyField (S : Schema) (fs : List FieldD) (st : MState) (i : Nat) (f : Fie
     if f.ty == .message then
       (getAttr S fs st i).bind fun (v, st1) =>
       match v with
-      | .list _ => .error .type                            -- `for item in <leaf>`
+      | .list _ => .error (iterErr p)                      -- `for item in <leaf>`
       | .ts _ => (unRaw p).bind fun w => .ok (setAttrNN S fs st1 i w)
       | .dur _ => (unRaw p).bind fun w => .ok (setAttrNN S fs st1 i w)
-      | _ =>
+      | v =>
         if f.wraps.isSome then (unRaw p).bind fun w => .ok (setAttrNN S fs st1 i w)
-        else .error .attr                                  -- `None.from_pydict`; `for key in <leaf>`
+        else .error (notMsgErr v)                          -- `None.from_pydict`; `for key in <leaf>`
     else if f.ty == .map && f.mapV == .message then
-      (getAttr S fs st i).bind fun _ => .error .type       -- `for k in <leaf>`
+      (getAttr S fs st i).bind fun _ => .error (iterErr p) -- `for k in <leaf>`
     else (unRaw p).bind fun w => .ok (setAttrNN S fs st i w)
 
 /-- `cls().from_pydict(item)` for each item: a fresh instance of class `c` each -/
